@@ -594,7 +594,8 @@ func (x *Exec) builtinAppend(st *State, site ssa.Instruction, c *ssa.CallCommon,
 	}
 	// prefix copy into the fresh backing
 	x.copyRange(st, elem, nb, "0", s.B, s.O, s.L, true)
-	rb, ro, rc := ite(fits, s.B, nb), ite(fits, s.O, "0"), ite(fits, s.C, nc)
+	rb, ro, rc := x.freshInt("app.b"), x.freshInt("app.o"), x.freshInt("app.c")
+	st.assume(ite(fits, and(eq(rb, s.B), eq(ro, s.O), eq(rc, s.C)), and(eq(rb, nb), eq(ro, "0"), eq(rc, nc))))
 	if isIntLiteral(tl) && len(tl) == 1 {
 		n := int(tl[0] - '0')
 		var vs []Val
@@ -656,14 +657,17 @@ func (x *Exec) copyLeaf(st *State, elem types.Type, key, sort, dB, dOff, sB, sOf
 	cur := x.hget(st.H, key)
 	nh := x.reg.fresh(key)
 	x.reg.declare(nh, "(Array Int "+sort+")")
-	eo := x.elemObj(elem, "b", "j")
+	x.elemObj(elem, "b", "j")
+	ef := "|elem:" + typeKey(elem) + "|"
 	fb := "|elemB:" + typeKey(elem) + "|"
 	fi := "|elemI:" + typeKey(elem) + "|"
-	// objects that are not elements of dB in range keep their value; elements in range get the source value
-	st.assume(fmt.Sprintf("(forall ((b Int) (j Int)) (! (= (select %s %s) (ite (and (= b %s) (<= %s j) (< j (+ %s %s))) (select %s %s) (select %s %s))) :pattern (%s)))",
-		nh, eo, dB, dOff, dOff, n, cur, x.elemObj(elem, sB, "(+ (- j "+dOff+") "+sOff+")"), cur, eo, eo))
-	st.assume(fmt.Sprintf("(forall ((o Int)) (! (=> (not (= o (|elem:%s| (%s o) (%s o)))) (= (select %s o) (select %s o))) :pattern ((select %s o))))",
-		typeKey(elem), fb, fi, nh, cur, nh))
+	// (1) every object that is not a destination element in range keeps its value;
+	// (2) destination elements in range get the source value.  (Split so that instantiating (2)
+	// creates no term that matches (2)'s own pattern unless source and destination backings coincide.)
+	st.assume(fmt.Sprintf("(forall ((o Int)) (! (=> (not (and (= o (%s (%s o) (%s o))) (= (%s o) %s) (<= %s (%s o)) (< (%s o) (+ %s %s)))) (= (select %s o) (select %s o))) :pattern ((select %s o))))",
+		ef, fb, fi, fb, dB, dOff, fi, fi, dOff, n, nh, cur, nh))
+	st.assume(fmt.Sprintf("(forall ((j Int)) (! (=> (and (<= %s j) (< j (+ %s %s))) (= (select %s (%s %s j)) (select %s (%s %s (+ (- j %s) %s))))) :pattern ((%s %s j))))",
+		dOff, dOff, n, nh, ef, dB, cur, ef, sB, dOff, sOff, ef, dB))
 	st.H.M[key] = nh
 }
 
